@@ -273,6 +273,10 @@ type OrderCase struct {
 	Procs    int   `json:"procs"`
 	UseCtx   bool  `json:"usectx,omitempty"`
 	Ambient  int   `json:"ambient,omitempty"`
+	// Pre > 0 (two handlers): the second handler is subscribed after Pre
+	// events were already published, so the two handlers' places in line
+	// carry different numbers for the same event.
+	Pre int `json:"pre,omitempty"`
 }
 
 func RunOrder(c *OrderCase) *vkit.Outcome {
@@ -291,7 +295,18 @@ func runOrder(c *OrderCase, k *counters) *vkit.Outcome {
 		seen []int
 	}
 	sts := make([]*st, len(c.Handlers))
+	pre := 0
+	if c.Pre > 0 && len(c.Handlers) == 2 {
+		pre = c.Pre
+	}
 	for i, h := range c.Handlers {
+		if i == 1 && pre > 0 {
+			// events that only the first handler is subscribed for
+			for id := 0; id < pre; id++ {
+				eventbus.Publish(bus, Ev{100000 + id})
+				k.published.Add(1)
+			}
+		}
 		s := &st{}
 		sts[i] = s
 		body := func(id int) {
@@ -332,6 +347,14 @@ func runOrder(c *OrderCase, k *counters) *vkit.Outcome {
 		want[i] = i
 	}
 	for i, s := range sts {
+		want := want
+		if i == 0 && pre > 0 {
+			w0 := make([]int, 0, pre+c.N)
+			for id := 0; id < pre; id++ {
+				w0 = append(w0, 100000+id)
+			}
+			want = append(w0, want...)
+		}
 		if fmt.Sprint(s.seen) != fmt.Sprint(want) {
 			o.Failf("async-sequential-out-of-order", "Async+Sequential handler %d processed events in order %v; they were published by one goroutine in order 0..%d", i, s.seen, c.N-1)
 			return o
@@ -340,6 +363,9 @@ func runOrder(c *OrderCase, k *counters) *vkit.Outcome {
 	o.Nontrivial = c.N >= 3
 	if o.Nontrivial {
 		o.Class("three_or_more_events")
+	}
+	if pre > 0 {
+		o.Class("second_handler_subscribed_after_earlier_publishes")
 	}
 	return o
 }
